@@ -3,7 +3,7 @@
    loop, no stack). Applicable when the scripted event provider is a function of the requested
    ID answering with an event of that ID, nothing, or an error; otherwise the answer is n/a. *)
 From Coq Require Import List NArith ZArith Bool.
-From Verif Require Import Lib.Bytes Json.Ast Json.Parse Fed.Filters Fed.Spec Fed.Instance.
+From Verif Require Import Lib.Bytes Json.Ast Json.Parse Fed.Filters Fed.Load Fed.Spec Fed.Instance.
 Import ListNotations.
 Open Scope N_scope.
 
@@ -126,25 +126,100 @@ Definition prop_chain (args : list bytes) : bytes :=
         then verdict (bs "ok") obs else verdict (bs "err") obs
     end).
 
+(* VerifyAuthRulesAtState per the property text, from the state provider's script *)
+Definition vras_want (s : scen) (alt : bool) (e : event) (av : bool) : bool :=
+  match find_sp (jlist (jfield "sp" (s_json s))) (eid e) with
+  | None => false
+  | Some j =>
+      match jnth 1 j with
+      | JArr ids =>
+          (av && forallb (fun a => mem_N a (map jN ids)) (auth_ids e)) ||
+          match jnth 2 j with
+          | JArr l =>
+              let m := dec_state_map (s_univ s) l in
+              forallb is_state (lookup_list m (auth_ids e))
+              && allowed_inst s alt e (lookup_list m (auth_ids e))
+          | _ => false
+          end
+      | _ => false
+      end
+  end.
+
 Definition prop_vras (args : list bytes) : bytes :=
   with_scen_prop args (fun s alt obs =>
     let e := ev_of (s_univ s) (jN (jfield "E" (s_json s))) in
     let av := jN (jfield "av" (s_json s)) =? 1 in
-    let want :=
-      match find_sp (jlist (jfield "sp" (s_json s))) (eid e) with
-      | None => false
+    verdict (if vras_want s alt e av then bs "ok" else bs "err") obs).
+
+(* ---------- LoadAndVerify: the class of an event is the FIRST check it fails ----------
+   signature, then auth chain (every reachable event passes), then auth rules at the state before
+   it; decided per event from the tables and the (stationary) providers, independently of the
+   order in which the implementation runs and overwrites its checks *)
+Definition spec_class (s : scen) (alt : bool) (prov : N -> presp) (e : event) : lclass :=
+  if negb (sig_inst s e) then LSig
+  else if negb (forallb (chain_ok_b (allowed_inst s alt) prov e)
+                        (reach_n (S (length (s_univ s))) prov e [e])) then LAuthChain
+  else if negb (vras_want s alt e true) then LAuthRules
+  else LOk.
+
+Definition spec_results (s : scen) (alt : bool) (prov : N -> presp) (raws : list parsed) : list bytes :=
+  map (fun e => pN (eid e) ++ bs ":" ++ p_class (spec_class s alt prov e)) (topo_inst s alt (loaded raws))
+  ++ repeat (bs "-:parse") (n_errors raws).
+
+Definition prop_load (args : list bytes) : bytes :=
+  with_scen_prop args (fun s alt obs =>
+    match script_fun (s_univ s) (p_script (init_ps s)) with
+    | None => bs "n/a"
+    | Some prov =>
+        if negb (jN (jfield "vk" (s_json s)) =? 1) then verdict (bs "err") obs
+        else verdict (bs "ok " ++ join_bytes (bs ",")
+                        (spec_results s alt prov (dec_items (s_univ s) (jfield "R" (s_json s))))) obs
+    end).
+
+(* ---------- RequestBackfill: an event ID is returned iff some server's answer, in server order
+   and while fewer than `limit` events have been collected, contains a copy whose class is "no
+   error" or "signature error only"; the first such copy counts ---------- *)
+Fixpoint spec_bf_take (s : scen) (alt : bool) (prov : N -> presp) (evs : list event)
+         (got : list event) : list event :=
+  match evs with
+  | [] => got
+  | e :: r =>
+      let keep := match spec_class s alt prov e with LOk | LSig => true | _ => false end in
+      if keep && negb (existsb (fun g => eid g =? eid e) got)
+      then spec_bf_take s alt prov r (got ++ [e]) else spec_bf_take s alt prov r got
+  end.
+
+Fixpoint spec_bf (s : scen) (alt : bool) (prov : N -> presp) (vk : bool) (limit : Z)
+         (servers : list N) (got : list event) (err : bool) : list event * bool :=
+  match servers with
+  | [] => (got, err)
+  | srv :: rest =>
+      if (limit <=? Z.of_nat (length got))%Z then (got, err) else
+      match find_sp (jlist (jfield "bf" (s_json s))) srv with
       | Some j =>
           match jnth 1 j with
-          | JArr ids =>
-              (av && forallb (fun a => mem_N a (map jN ids)) (auth_ids e)) ||
-              match jnth 2 j with
-              | JArr l =>
-                  let m := dec_state_map (s_univ s) l in
-                  forallb is_state (lookup_list m (auth_ids e))
-                  && allowed_inst s alt e (lookup_list m (auth_ids e))
-              | _ => false
-              end
-          | _ => false
+          | JArr l =>
+              if vk then
+                spec_bf s alt prov vk limit rest
+                        (spec_bf_take s alt prov (loaded (map (dec_item (s_univ s)) l)) got) err
+              else spec_bf s alt prov vk limit rest got true
+          | _ => spec_bf s alt prov vk limit rest got true
           end
-      end in
-    verdict (if want then bs "ok" else bs "err") obs).
+      | None => spec_bf s alt prov vk limit rest got true
+      end
+  end.
+
+Definition prop_bf (args : list bytes) : bytes :=
+  with_scen_prop args (fun s alt obs =>
+    match script_fun (s_univ s) (p_script (init_ps s)) with
+    | None => bs "n/a"
+    | Some prov =>
+        let '(got, err) :=
+          match jNs (jfield "from" (s_json s)) with
+          | [] => ([], false)
+          | _ => spec_bf s alt prov (jN (jfield "vk" (s_json s)) =? 1) (jZ (jfield "limit" (s_json s)))
+                         (jNs (jfield "servers" (s_json s))) [] false
+          end in
+        verdict (bs "ids=" ++ pNs "," (sort_N (map eid got)) ++ bs " n=" ++ pN (N.of_nat (length got))
+                 ++ (if err then bs " lasterr" else bs " noerr")) obs
+    end).
